@@ -95,34 +95,33 @@ func propC12(a *Analysis, r *Registry) {
 				r.Fail(rB, name+"/loop", b.pos(fn), "expected one bisection loop")
 				return
 			}
-			hdr := loops[0].Header
+			_ = loops[0].Header
 			type out struct{ cond, val *RF }
 			byOK := map[bool]*out{}
-			for _, ee := range fc.ExitEdges(hdr) {
-				v := fc.gatedReturns(ee.To, 0, nil)
-				if v == nil {
-					r.Undecided(rB, name+"/exits", b.pos(fn), "the value returned after leaving the loop is not computable")
-					return
-				}
-				if S.isBottom(v) {
-					continue
-				}
-				v = fc.resolveAlongEdge(ee.From, ee.To, v)
-				v = fc.resolveExitPhis(loops[0], ee.To, v)
-				at := v.SingleAtom()
+			outcomes, msg := b.LoopOutcomes(fc, loops[0])
+			if msg != "" {
+				r.Undecided(rB, name+"/exits", b.pos(fn), msg)
+				return
+			}
+			var split []LoopOutcome
+			for _, o := range outcomes {
+				split = append(split, b.SplitOutcome(o, 1)...)
+			}
+			for _, o := range split {
+				at := o.Val.SingleAtom()
 				if at == nil || at.Name != "tuple" || len(at.Args) != 2 || !(at.Args[1].Equal(S.True()) || at.Args[1].Equal(S.False())) {
-					r.Fail(rB, name+"/exits", b.pos(fn), "the loop is left with a result that is not (x, true) or (x, false): "+clip(v.String(), 200))
+					r.Fail(rB, name+"/exits", b.pos(fn), "the loop is left with a result that is not (x, true) or (x, false): "+clip(o.Val.String(), 200))
 					return
 				}
 				ok := at.Args[1].Equal(S.True())
-				if o := byOK[ok]; o == nil {
-					byOK[ok] = &out{ee.Cond, at.Args[0]}
+				if cur := byOK[ok]; cur == nil {
+					byOK[ok] = &out{o.Cond, at.Args[0]}
 				} else {
-					if !o.val.Equal(at.Args[0]) {
+					if !cur.val.Equal(at.Args[0]) {
 						r.Fail(rB, name+"/exits", b.pos(fn), "two ways out with the same verdict return different points")
 						return
 					}
-					o.cond = S.Or(o.cond, ee.Cond)
+					cur.cond = S.Or(cur.cond, o.Cond)
 				}
 			}
 			if byOK[true] == nil || byOK[false] == nil {
@@ -171,8 +170,28 @@ func propC12(a *Analysis, r *Registry) {
 			env := X.EnvFor(fn, "k")
 			env.Let("h", "ite(k.Bandwidth==0, BandwidthScott(k.Sample), k.Bandwidth)")
 			b.Eq(rB, name+"/lazy-bandwidth", b.pos(fn), fc.FieldAtExit(0, "Bandwidth"), env, "h")
-			b.Eq(rB, name+"/kernel", b.pos(fn), fc.RetVal(0), env,
-				"ite(k.Kernel==stats.EpanechnikovKernel, epanechnikovKernel(h), ite(k.Kernel==stats.GaussianKernel, NormalDist(0,h), DeltaDist(0)))")
+			// (compared for the three declared kernels: any other value panics — the exhaustiveness
+			// obligation below — so in which order the cases are tested does not matter)
+			kspec := "ite(k.Kernel==stats.EpanechnikovKernel, epanechnikovKernel(h), ite(k.Kernel==stats.GaussianKernel, NormalDist(0,h), DeltaDist(0)))"
+			if got, want := fc.RetVal(0), env.MustParse(kspec); got.Equal(want) || X.EquivByCases(got, want, 0) {
+				r.OK(rB, name+"/kernel", b.pos(fn), "≡ "+kspec)
+			} else {
+				declared := env.MustParse("k.Kernel==stats.EpanechnikovKernel || k.Kernel==stats.GaussianKernel || k.Kernel==stats.DeltaKernel")
+				okAll := true
+				for _, kn := range []string{"stats.EpanechnikovKernel", "stats.GaussianKernel", "stats.DeltaKernel"} {
+					as := []Assumption{X.AssumeEq(env.MustParse("k.Kernel"), env.MustParse(kn))}
+					g, w := X.SimplifyUnder(got, as), X.SimplifyUnder(want, as)
+					if !(g.Equal(w) || X.EquivByCases(g, w, 0)) {
+						okAll = false
+					}
+				}
+				_ = declared
+				if okAll {
+					r.OK(rB, name+"/kernel", b.pos(fn), "≡ "+kspec+" for each declared kernel")
+				} else {
+					b.Eq(rB, name+"/kernel", b.pos(fn), got, env, kspec)
+				}
+			}
 			b.Eq(rB, name+"/bc", b.pos(fn), fc.RetVal(1), env, "k.BoundaryMin!=0 || k.BoundaryMax!=0")
 			if kv, err := env.Parse("k.Kernel"); err == nil {
 				b.switchExhaustiveOn("C-exhaustive", name+"/switch(Kernel)", fc, kv.RF, kv.T)
